@@ -27,7 +27,8 @@ func Path() string {
 }
 
 var accessRe = regexp.MustCompile(`^(Read|Write|Previous read|Previous write|Atomic read|Atomic write|Previous atomic read|Previous atomic write) at 0x[0-9a-f]+ by `)
-var funcRe = regexp.MustCompile(`^  (\S+)\(`)
+// function names of generic instantiations contain spaces ("pipe[go.shape.struct { A int; B int }]")
+var funcRe = regexp.MustCompile(`^  (\S.*)\(\)\s*$`)
 var fileRe = regexp.MustCompile(`^      (\S+?):(\d+)`)
 
 var genericRe = regexp.MustCompile(`\[[^\]]*\]`)
@@ -118,7 +119,7 @@ func Read(path string, offset *int64) []Report {
 					file = file[k+1:]
 				}
 				site = clean(fm[1]) + "@" + file
-				repo = strings.HasPrefix(fl[1], "/repo/")
+				repo = strings.Contains(fl[1], "/repo/") // /repo itself, or a scratch copy …/repo/ (scripts/mutrun.sh)
 				break
 			}
 			sites = append(sites, site)
